@@ -42,7 +42,7 @@ theorem kget_of_mem_nodup {β : Type} {m : Nat} {o : β} {l : List (Nat × β)} 
       simp only [kget, this, if_false]
       exact ih hn.2 h
 
-theorem filter_decide_eq_singleton : ∀ (l : List Name) (cur : Name), cur ∈ l → l.Nodup →
+theorem filter_decide_eq_singleton {α : Type} [DecidableEq α] : ∀ (l : List α) (cur : α), cur ∈ l → l.Nodup →
     l.filter (fun s => decide (s = cur)) = [cur]
   | [], _, h, _ => by cases h
   | x :: t, cur, hcs, hnd => by
@@ -589,6 +589,178 @@ theorem C11_names_injective (attr : Name) (k1 k2 : Kind) (h1 : k1.Hyg) (h2 : k2.
   · exact absurd (mayName_inj _ _ h).symm h2.2.2.2
   · exact absurd h.symm e9
   · rfl
+
+/-! ### hierarchical machines: `is_<state>` -/
+
+/-- **C11, nested `is_<state>()`.** `active` = the model's active leaves (non-empty paths).  The tree walk
+of `HierarchicalMachine.is_state` answers True with `allow_substates` exactly for the active leaves and
+their ancestors; without it exactly for paths that are active and have nothing active below them — for
+a well-formed configuration (no active path is a proper prefix of another) that is `p ∈ active`. -/
+theorem C11_is_state_nested (active : List Path) (hne : ∀ a ∈ active, a ≠ []) (p : Path) (hp : p ≠ []) :
+    (isStateH active p true = true ↔ ∃ a ∈ active, p <+: a) ∧
+    (isStateH active p false = true ↔ (p ∈ active ∧ ∀ a ∈ active, p <+: a → a = p)) ∧
+    ((∀ a ∈ active, ∀ b ∈ active, a <+: b → b = a) → (isStateH active p false = true ↔ p ∈ active)) := by
+  have h1 : isStateH active p true = true ↔ ∃ a ∈ active, p <+: a := by
+    rw [isStateH_allow]; simp [hp]
+  have h2 : isStateH active p false = true ↔ (p ∈ active ∧ ∀ a ∈ active, p <+: a → a = p) := by
+    rw [isStateH_exact p active hne]
+    constructor
+    · rintro ⟨h | ⟨a, ha, hpre⟩, hall⟩
+      · exact absurd h hp
+      · exact ⟨by rw [← hall a ha hpre]; exact ha, hall⟩
+    · rintro ⟨hm, hall⟩
+      exact ⟨Or.inr ⟨p, hm, List.prefix_refl p⟩, hall⟩
+  refine ⟨h1, h2, ?_⟩
+  intro hwf
+  rw [h2]
+  exact ⟨fun h => h.1, fun h => ⟨h, fun a ha hpre => hwf p h a ha hpre⟩⟩
+
+/-! ### hierarchical machines: `get_triggers` -/
+
+/-- full strength (FALSE on the pinned tree, `C11_get_triggers_nested_counterexample`):
+`get_triggers(state)` lists exactly the events that are offered a transition when the model is in
+that state, i.e. declared — in the root scope or in the scope of an ancestor — on the state or one of
+its ancestors -/
+def C11_get_triggers_nested : Prop :=
+  ∀ (h : HSM), h.ScopesNodup → ∀ (p : Path), PathStates h [] p → ∀ e, (e ∈ getTriggersH h p ↔ firesIn h [] p e = true)
+
+/-- **C11, nested get_triggers never lists an event that does not fire** (every machine, every state). -/
+theorem C11_get_triggers_nested_sound (h : HSM) (hn : h.ScopesNodup) (p : Path) (e : Name)
+    (hm : e ∈ getTriggersH h p) : firesIn h [] p e = true := by
+  unfold getTriggersH at hm
+  rcases List.mem_append.mp hm with h1 | h1
+  · cases p with
+    | nil => cases h1
+    | cons x tl =>
+      cases tl with
+      | nil => cases h1
+      | cons y tl' =>
+        have := nestedTriggers_sound h hn e (y :: tl') [x] h1
+        unfold firesIn
+        simp only [Bool.or_eq_true, Bool.and_eq_true]
+        exact Or.inr ⟨by simp, by simpa using this⟩
+  · obtain ⟨q, hq, he⟩ := List.mem_flatMap.mp h1
+    have hd := (mem_scopeTriggers (hn [])).mp he
+    cases p with
+    | nil => cases hq
+    | cons x tl =>
+      unfold firesIn
+      simp only [Bool.or_eq_true, List.any_eq_true]
+      exact Or.inl ⟨q, hq, hd⟩
+
+/-- **C11, nested get_triggers is exact outside finding F-C11-nested-get-triggers**: when no scope
+below the root declares an event on a proper ancestor (inside that scope) of the queried state. -/
+theorem C11_get_triggers_nested_partial (h : HSM) (hn : h.ScopesNodup) (p : Path) (hp : PathStates h [] p)
+    (hx : localAncestorDecl h [] p = false) (e : Name) :
+    e ∈ getTriggersH h p ↔ firesIn h [] p e = true := by
+  refine ⟨C11_get_triggers_nested_sound h hn p e, ?_⟩
+  intro hf
+  cases p with
+  | nil => simp [firesIn] at hf
+  | cons x tl =>
+    unfold firesIn at hf
+    unfold localAncestorDecl at hx
+    simp only [Bool.or_eq_true, Bool.and_eq_true, List.any_eq_true] at hf
+    unfold getTriggersH
+    rcases hf with ⟨q, hq, hd⟩ | ⟨htl, hsub⟩
+    · exact List.mem_append_right _ (List.mem_flatMap.mpr ⟨q, hq, (mem_scopeTriggers (hn [])).mpr hd⟩)
+    · apply List.mem_append_left
+      cases tl with
+      | nil => simp at htl
+      | cons y tl' =>
+        simp only [Bool.or_eq_false_iff, Bool.and_eq_false_iff] at hx
+        have hx' : localAncestorDecl h [x] (y :: tl') = false := by
+          rcases hx.2 with h1 | h1
+          · simp at h1
+          · simpa using h1
+        exact nestedTriggers_complete h hn e (y :: tl') [x] (by simp) hx' (by simpa using hp.2) (by simpa using hsub)
+
+/-- the witness of finding F-C11-nested-get-triggers (DESIGN.md section 6, item 20): states `P`, `P_a`, `P_a_1`
+(character codes 80 / 97 / 49), the event `mid` (109 105 100) declared in the scope of `P` on the
+source `a`; it fires from `P_a_1` but `get_triggers('P_a_1')` does not list it -/
+def exNested : HSM :=
+  { states := [[[80]], [[80], [97]], [[80], [97], [49]]],
+    scopes := [([[80]], [([109, 105, 100], [[[97]]])])] }
+
+theorem C11_get_triggers_nested_counterexample : ¬ C11_get_triggers_nested := by
+  intro h
+  have hn : exNested.ScopesNodup := by
+    intro pre
+    unfold HSM.scopeEvents exNested
+    simp only [kget]
+    split <;> simp [keys]
+  have := (h exNested hn [[80], [97], [49]] (by simp [PathStates, exNested]) [109, 105, 100]).mpr (by decide +kernel)
+  revert this
+  decide +kernel
+
+/-! ### the flat engine with callbacks: the state attribute stays registered (C04) -/
+
+/-- **C11 on the engine of C01/C04** (`Model/Core.lean`, callbacks of every kind, any of them raising
+anywhere): after every history of trigger calls each model's state is a registered state, hence —
+state names being unique — exactly one `is_<state>` evaluates to True, the current state's. -/
+theorem C11_exactly_one_is_engine (sc : Script) (cfg : Cfg) (hC : NoCmds sc) (hWF : cfg.WF) (hq : cfg.queued = false)
+    (hnd : (cfg.states.map (·.name)).Nodup) (qmax fuel : Nat) (h : List Cmd) (s : St)
+    (hidle : s.queue = []) (hreg : StatesRegistered cfg s) (hh : TriggerHistory cfg s h) :
+    ∃ s', runHistory sc cfg qmax (fuel + 1) h s = some s' ∧
+      ∀ m cur, alookup m s'.mstate = some cur →
+        (cfg.states.map (·.name)).filter (fun n => decide (s'.stateOf m = n)) = [cur] := by
+  obtain ⟨s', _, hr, _, _, hreg', _⟩ := C04_history sc cfg hC hWF hq qmax fuel h s hidle hreg hh
+  refine ⟨s', hr, ?_⟩
+  intro m cur hm
+  have hs : s'.stateOf m = cur := by simp [St.stateOf, hm]
+  have hin : cur ∈ cfg.states.map (·.name) := by
+    have := hreg' m cur hm
+    obtain ⟨sd, hsd⟩ := Option.isSome_iff_exists.mp this
+    unfold Cfg.state? at hsd
+    have h1 := List.find?_some hsd
+    have h2 := List.mem_of_find?_eq_some hsd
+    exact List.mem_map.mpr ⟨sd, h2, by simpa using h1⟩
+  rw [hs]
+  have : (fun n => decide (cur = n)) = (fun n => decide (n = cur)) := by
+    funext n; exact decide_eq_decide.mpr ⟨Eq.symm, Eq.symm⟩
+  rw [this]
+  exact filter_decide_eq_singleton _ cur hin hnd
+
+/-! ### non-vacuity -/
+
+/-- `model_attribute='mode'`, auto transitions; a model class that defines `is_mode_A` (a method) and an
+instance attribute `go`; states A, B (B added after the model), events `go` (A→B) and `run` (B→A, added
+after the model, later removed again); characters: A 65, B 66, go 103 111, run 114 117 110, mode 109 111 100 101 -/
+def exAttr : Name := [109, 111, 100, 101]
+def exOps : List Op :=
+  [.setInitial [65], .addTransition [103, 111] (.one [65]) (.to [66]) true,
+   .addModel 0 { cls := [(isName exAttr [65], .user 7)], inst := [([103, 111], .user 8)] },
+   .addState [66], .addTransition [114, 117, 110] (.one [66]) (.to [65]) true,
+   .fire 0 (toName exAttr [66]), .removeTransition [114, 117, 110] none none, .addModel 1 {}]
+
+example : AttrOK exAttr := ⟨by decide, by decide⟩
+example : OpsFresh exOps := opsFresh_of_B (by decide)
+example : FOps exOps exOps := FOps_of_B (by decide)
+example : UserEvents exOps := UserEvents_of_B (by decide)
+/-- model 0 ends in B; its own `is_mode_A` and `go` are untouched, `is_mode_B` answers True, `to_mode_A` is
+there; model 1 (added last, in A) has every helper -/
+example : (Reach exAttr false true exOps).stateOf 0 = some [66] ∧
+    ((Reach exAttr false true exOps).objs.map fun p =>
+      (p.2.getattr (isName exAttr [65]), p.2.getattr [103, 111], p.2.getattr (isName exAttr [66]),
+       callIs (Reach exAttr false true exOps) p.1 (isName exAttr [66]), (p.2.getattr (toName exAttr [65])).isSome)) =
+    [(some (.user 7), some (.user 8), some (.isState [66]), .answer true, true),
+     (some (.isState [65]), some (.trigger [103, 111]), some (.isState [66]), .answer false, true)] := by decide
+/-- with `model_override` the same history replaces exactly the two attributes the model defined -/
+example : ((Reach exAttr true true exOps).objs.map fun p =>
+      (p.2.getattr (isName exAttr [65]), p.2.getattr [103, 111], p.2.getattr (isName exAttr [66]), p.2.getattr sTrigger)) =
+    [(some (.isState [65]), some (.trigger [103, 111]), none, none), (none, none, none, none)] := by decide
+/-- hierarchical: with `mid` declared in the root scope on `P_a` instead, `get_triggers('P_a_1')` is exact -/
+example : localAncestorDecl { exNested with scopes := [([], [([109, 105, 100], [[[80], [97]]])])] } [] [[80], [97], [49]] = false ∧
+    getTriggersH { exNested with scopes := [([], [([109, 105, 100], [[[80], [97]]])])] } [[80], [97], [49]] = [[109, 105, 100]] := by
+  decide +kernel
+example : localAncestorDecl exNested [] [[80], [97], [49]] = true := by decide +kernel
+/-- nested `is_<state>`: parallel configuration [P_a_1, P_b] -/
+example : (isStateH [[[80], [97], [49]], [[80], [98]]] [[80], [97]] false, isStateH [[[80], [97], [49]], [[80], [98]]] [[80], [97]] true,
+    isStateH [[[80], [97], [49]], [[80], [98]]] [[80], [98]] false) = (false, true, true) := by decide +kernel
+/-- custom separator `.` (46): `is_P.a.s1()` / `to_P.a.s1()`; default separator: `is_P_a_1` -/
+example : isAccessH 46 [[80], [97], [49]] = [sIs ++ [80], [97], [115, 49]] ∧
+    toAccessH 46 [[80], [97], [49]] = [sTo ++ [80], [97], [115, 49]] ∧
+    isAccessH 95 [[80], [97], [49]] = [sIs ++ [80, 95, 97, 95, 49]] := by decide +kernel
 
 end Helpers
 end TM
